@@ -102,6 +102,7 @@ class Ranger:
         self.depth = 0
         self._refmemo = {}
         self._keep = []
+        self.guard_fn = None  # path -> (index of the guarded argument, index of the bound argument) for guard helper functions
         self.grown = set()  # names of collections that grow after their initialisation (set by the Walker's owner)
 
     def rng(self, n, env, at=None):
@@ -188,6 +189,11 @@ class Ranger:
         _k, op, lhs, rhs, env, seq, prev = ref
         lo = hi = None
         r = self.rng(rhs, env, seq)
+        if r is not None and "/" in op:
+            op, k = op.split("/")
+            k = int(k)
+            hi = (r[1] - 1 if op == "Lt" else r[1]) // k
+            r = None
         if r is not None:
             if op == "Lt":
                 hi = r[1] - 1
@@ -384,7 +390,40 @@ class Ranger:
                 return (0, 255)
             return None
         if t == "if":
+            if n[3] is not None and diverges(n[2]):
+                return self.rng(n[3], env, at)
+            if n[3] is not None and diverges(n[3]):
+                return self.rng(n[2], env, at)
             return union(self.rng(n[2], env, at), self.rng(n[3], env, at) if n[3] is not None else None)
+        if t == "match":
+            sr = self.rng(n[1], env, at)
+            seen = []
+            out = None
+            first = True
+            for pat, guard, body in n[3]:
+                e2 = env.child()
+                seq = at if at is not None else 0
+                for q in H.walk(pat):
+                    if H.tag(q) == "bind":
+                        e2.set(q[1], ("type", q[4]), seq)
+                if H.tag(pat) == "lit" and pat[1] == "int" and guard is None:
+                    seen.append(int(pat[2]))
+                elif H.tag(pat) == "bind" and pat[5] is None and sr is not None:
+                    lo_, hi_ = sr
+                    while lo_ in seen:
+                        lo_ += 1
+                    while hi_ in seen:
+                        hi_ -= 1
+                    if lo_ <= hi_:
+                        e2.set(pat[1], ("range", lo_, hi_), seq)
+                if diverges(body):
+                    continue
+                r = self.rng(body, e2, at)
+                if r is None:
+                    return None
+                out = r if first else union(out, r)
+                first = False
+            return out
         return None
 
 
@@ -398,6 +437,34 @@ def mutated_names(hir):
             if nm:
                 out.add(nm)
     return out
+
+
+def guard_fn_summary(fn):
+    """fn(.., x, .., max, ..) -> Result<(), E> whose only effect is `if x > max { return Err(..) }`: -> (index of x, index of max), else None"""
+    if fn is None or fn.get("hir") is None or "Result<()" not in (fn.get("output") or "").replace(" ", "").replace("std::result::", ""):
+        return None
+    names = [p[1] if H.tag(p) == "bind" else None for p in fn["params"]]
+    body = H.unwrap_async(fn["hir"])
+    # no calls other than the error constructors, no loops
+    for x in H.walk(body):
+        t = H.tag(x)
+        if t in ("for", "while", "loop", "mcall"):
+            return None
+        if t == "call" and not ("Ctor" in (H.strip(x[2])[2] if H.tag(H.strip(x[2])) == "path" else "") or (H.call_path(x) or "").split("::")[-1] in ("Ok", "Err", "new")):
+            return None
+    ifs = [x for x in H.walk(body) if H.tag(x) == "if"]
+    if len(ifs) != 1:
+        return None
+    c = H.strip(ifs[0][1])
+    if H.tag(c) != "bin" or c[2] not in ("Gt", "Ge"):
+        return None
+    a, b = H.local_name(H.strip_refs(c[4])), H.local_name(H.strip_refs(c[5]))
+    if a not in names or b not in names:
+        return None
+    then_err = any(H.tag(y) == "call" and (H.call_path(y) or "").endswith("::Err") for y in H.walk(ifs[0][2]))
+    if not then_err:
+        return None
+    return (names.index(a), names.index(b))
 
 
 def grown_names(hir):
@@ -522,8 +589,36 @@ class Walker:
                 e = e[4]
             elif t == "local":
                 return e[1]
+            elif t == "call" and (H.call_path(e) or "") in ("std::convert::From::from", "std::convert::Into::into") and len(H.call_args(e)) == 1:
+                ga = H.call_gargs(e)
+                a, b = (ty_range(ga[1]), ty_range(ga[0])) if len(ga) >= 2 else (None, None)
+                if a is None or b is None or not (b[0] <= a[0] and a[1] <= b[1]):
+                    return None
+                e = H.call_args(e)[0]
+            elif t == "mcall" and e[2] == "into" and not H.mcall(e)["args"]:
+                ga = H.mcall(e)["gargs"]
+                a, b = (ty_range(ga[0]), ty_range(ga[1])) if len(ga) >= 2 else (None, None)
+                if a is None or b is None or not (b[0] <= a[0] and a[1] <= b[1]):
+                    return None
+                e = H.mcall(e)["recv"]
             else:
                 return None
+
+    def scaled_local(self, e):
+        """e = local (seen through value-preserving views) or local * K / K * local with a positive constant K -> (name, K), else None"""
+        nm = self.local_of(e)
+        if nm is not None:
+            return nm, 1
+        x = H.strip(e)
+        if H.tag(x) == "bin" and x[2] == "Mul":
+            for a, b in ((x[4], x[5]), (x[5], x[4])):
+                nm = self.local_of(a)
+                k = H.lit_int(H.strip(b))
+                if k is None and H.tag(H.strip(b)) == "path":
+                    k = self.r.consts(H.strip(b)[1])
+                if nm is not None and k is not None and k > 0:
+                    return nm, k
+        return None
 
     def set_ref(self, env, name, lo, hi, kind="ref"):
         old = self.r.resolve_ref(env.get("#ref:" + name, self.seq))
@@ -558,6 +653,12 @@ class Walker:
         for lhs, rhs, op in ((c[4], c[5], op0), (c[5], c[4], FLIP[op0])):
             name = self.local_of(lhs)
             if name is None:
+                sl = self.scaled_local(lhs)
+                if sl is not None and op in ("Lt", "Le"):
+                    # count * K <= bound  =>  count <= bound / K
+                    prev = env.get("#ref:" + sl[0], self.seq)
+                    self.seq += 1
+                    env.set("#ref:" + sl[0], ("lazy", op + "/" + str(sl[1]), lhs, rhs, env, self.seq - 1, prev), self.seq)
                 continue
             # recorded unevaluated: the ranges are computed only if a site asks about this local (Ranger.resolve_ref)
             prev = env.get("#ref:" + name, self.seq)
@@ -644,8 +745,35 @@ class Walker:
         return r
 
     def note_guard(self, stmt_expr, env):
-        """`if X > C { return Err(..) }` establishes an allocation guard on X and on the locals X was computed from"""
+        """`if X > C { return Err(..) }` establishes an allocation guard on X and on the locals X was computed from; so does
+        `guard_fn(X, C)?` when guard_fn is a function that returns an error exactly when its argument exceeds a constant bound"""
         g = H.strip(stmt_expr)
+        gc = g
+        while H.tag(gc) in ("try", "await"):
+            gc = H.strip(gc[1])
+        if H.tag(gc) == "call" and H.tag(g) == "try" and self.r.guard_fn is not None:
+            idx = self.r.guard_fn(H.call_path(gc) or "")
+            args = H.call_args(gc)
+            if idx is not None and idx[0] < len(args) and idx[1] < len(args):
+                bound = H.strip(args[idx[1]])
+                if H.lit_int(bound) is not None or H.tag(bound) == "path":
+                    sl = self.scaled_local(args[idx[0]])
+                    if sl is not None:
+                        prev = env.get("#ref:" + sl[0], self.seq)
+                        self.seq += 1
+                        env.set("#ref:" + sl[0], ("lazy", "Le/" + str(sl[1]), args[idx[0]], args[idx[1]], env, self.seq - 1, prev), self.seq)
+                    self.seq += 1
+                    for y in H.walk(args[idx[0]]):
+                        if H.tag(y) != "local":
+                            continue
+                        v = y[1]
+                        env.set("#guard:" + v, ("guard",), self.seq)
+                        b = env.get(v, self.seq)
+                        if b and b[0] == "expr":
+                            for x in H.walk(b[1]):
+                                if H.tag(x) == "local":
+                                    env.set("#guard:" + x[1], ("guard",), self.seq)
+            return
         if H.tag(g) == "if" and g[3] is None and any(H.tag(x) == "ret" for x in H.walk(g[2])):
             c = H.strip(g[1])
             if H.tag(c) == "bin" and c[2] in ("Gt", "Ge") and (H.lit_int(c[5]) is not None or H.tag(H.strip(c[5])) == "path"):
@@ -751,8 +879,12 @@ class Walker:
             counters = {}
             if t == "while":
                 # counter induction: `while x != K` / `while x < K` where the body changes x only by `x += c`
-                c = H.strip(n[1])
-                if H.tag(c) == "bin" and c[2] in ("Ne", "Lt", "Le"):
+                conj = [H.strip(n[1])]
+                while any(H.tag(x) == "bin" and x[2] == "And" for x in conj):
+                    conj = [H.strip(y) for x in conj for y in ((x[4], x[5]) if H.tag(x) == "bin" and x[2] == "And" else (x,))]
+                for c in conj:
+                    if not (H.tag(c) == "bin" and c[2] in ("Ne", "Lt", "Le")):
+                        continue
                     nm = self.local_of(c[4])
                     kr = self.r.rng(c[5], env, self.seq)
                     ups = self.updates_of(n[2], nm) if nm else None
